@@ -676,11 +676,68 @@ func star(n int, p string, outward bool) shape {
 	return s
 }
 
+const exQ = "http://example.org/q"
+
+// doubledRing: a ring whose every edge exists once per predicate (parallel <p>/<q> edges): all nodes share
+// one first-degree hash and every node is related to the same unissued neighbour, in the same position,
+// through two predicates.
+func doubledRing(n int, preds ...string) shape {
+	s := shape{name: "multipred-ring", n: n}
+	for i := 0; i < n; i++ {
+		for _, p := range preds {
+			s.qs = append(s.qs, edge(i, (i+1)%n, p))
+		}
+	}
+	return s
+}
+
+// ringOfFive: five nodes without automorphisms in which two nodes are each the object of a <p> and of a <q>
+// quad while several nodes share a first-degree hash.
+func ringOfFive() shape {
+	return shape{name: "multipred-mixed", n: 5, qs: []vh.GQuad{edge(0, 1, exP), edge(0, 4, exQ), edge(2, 1, exQ), edge(2, 3, exP), edge(3, 4, exP)}}
+}
+
+// mixedRing: 3..6 nodes on a ring with a random predicate per edge, some edges doubled with the other
+// predicate, and a few chords: many nodes with equal first-degree hashes that are related to the same
+// neighbour (or share a neighbour) through different predicates.
+func (h *harness) mixedRing(n int) shape {
+	r := h.r
+	s := shape{name: "multipred-mixed", n: n}
+	other := map[string]string{exP: exQ, exQ: exP}
+	for i := 0; i < n; i++ {
+		p := vh.Pick(r, []string{exP, exQ})
+		a, b := i, (i+1)%n
+		if r.Chance(25) {
+			a, b = b, a
+		}
+		s.qs = append(s.qs, edge(a, b, p))
+		if r.Chance(45) {
+			s.qs = append(s.qs, edge(a, b, other[p]))
+		}
+	}
+	for i, m := 0, r.Intn(3); i < m; i++ {
+		s.qs = append(s.qs, edge(r.Intn(n), r.Intn(n), vh.Pick(r, []string{exP, exQ})))
+	}
+	return s
+}
+
 func (h *harness) randomShape(maxNodes int) shape {
 	r := h.r
 	p := vh.Pick(r, []string{exP, exP, "http://example.org/q"})
 	var s shape
-	switch r.Intn(7) {
+	switch r.Intn(9) {
+	case 7:
+		ps := []string{exP, exQ}
+		if r.Chance(25) {
+			ps = append(ps, "http://example.org/r")
+		}
+		s = doubledRing(3+r.Intn(min(maxNodes, 6)-2), ps...)
+		if r.Chance(50) { // break the rotational symmetry a little, keep the first-degree classes large
+			k := r.Intn(s.n)
+			s.qs = append(s.qs, edge(k, (k+2)%s.n, vh.Pick(r, ps)))
+		}
+	case 8:
+		s = h.mixedRing(3 + r.Intn(min(maxNodes, 6)-2))
 	case 0:
 		s = cycle(2+r.Intn(min(maxNodes, 7)-1), p)
 	case 1:
@@ -1319,6 +1376,12 @@ func Main(prop string) {
 			return q
 		}
 		tie := shape{name: "corpus:rdfc10-non-automorphic-tie", n: 4, qs: []vh.GQuad{gq(0, 1, 3), gq(1, 2, 0), gq(2, 3, -1), gq(3, 0, 1)}}
+		for _, s := range []shape{doubledRing(3, exP, exQ), doubledRing(4, exP, exQ), doubledRing(5, exP, exQ), ringOfFive()} {
+			s.name = "corpus:" + s.name
+			for _, hn := range []string{"sha256", "test8"} {
+				h.checkDataset(s.name, hn, fromG(s.qs, func(i int) string { return fmt.Sprintf("e%d", i) }), 16)
+			}
+		}
 		for _, s := range []shape{tie, twoStars(9), twoStars(8), twoStars(7), cycle(520, exP), cycle(505, exP), clique(7, exP, false)} {
 			if strings.HasPrefix(s.name, "corpus") == false {
 				s.name = "corpus:" + s.name
